@@ -45,6 +45,12 @@ modelrun: $(addprefix $(MR)/,$(MODELS))
 harness:
 	@test -f harness/Cargo.lock || cp /repo/Cargo.lock harness/Cargo.lock
 	cd harness && cargo build --offline $(if $(MODEL),--bin $(MODEL),--bins) 2>&1 | grep -E "^(error|warning: unused)|Finished|panicked" | head -40; exit $${PIPESTATUS[0]}
+	@# further harness crates (des built with other feature sets), e.g. harness_heap: des without `cqueue`
+	@for h in harness_*; do [ -f $$h/Cargo.toml ] || continue; \
+	  test -f $$h/Cargo.lock || cp /repo/Cargo.lock $$h/Cargo.lock; \
+	  for b in $$(python3 tools/harness_bins.py $$h); do \
+	    (cd $$h && cargo build --offline --bin $$b 2>&1 | grep -E "^(error|warning: unused)|Finished|panicked" | head -20; exit $${PIPESTATUS[0]}) || exit 1; \
+	  done; done
 
 clean:
 	-$(MAKE) -C $(COQDIR) clean
